@@ -287,13 +287,13 @@ def gen_layout(r, nops):
                         ty = r.choice('!#')
                     else:
                         ty = '$' if r.random() < 0.9 else r.choice('%#')
-                nm = 'zv' + {'%': 'i', '&': 'l', '!': 's', '#': 'd', '$': 't'}[ty] + ty
+                nm = 'zv' + {'%': 'i', '&': 'l', '!': 's', '#': 'd', '$': 't'}[ty] + str(len(names)) + ty
                 if cur >= len(flat):
                     failing = (nm, ('err', 'DEVICE_ERROR:OP_FAILED'))
                     break
                 ce = conv_expected(flat[cur], ty)
                 if ce[0] == 'skip':
-                    nm, ty = 'zvt$', '$'
+                    nm, ty = f'zvt{len(names)}$', '$'
                     ce = conv_expected(flat[cur], '$')
                 if ce[0] == 'err':
                     failing = (nm, ('err', 'DEVICE_ERROR:BAD_ARG_TYPE'))
